@@ -61,6 +61,7 @@ func dedupDriver(a *Args) {
 	fp := fakes.NewFakeProxy()
 	defer fp.Close()
 	fp.OnList = func(ids []string) { hx.Emit("FakeList", "ids", ids) }
+	fp.OnListFail = func(kind string) { hx.Emit("FakeListFail", "kind", kind) }
 	fp.Fetch = func(id string) ([]byte, string, int) {
 		hx.Emit("FakeFetch", "id", id)
 		if d := rng.Intn(4); d > 0 {
@@ -142,6 +143,11 @@ func dedupDriver(a *Args) {
 		for _, batch := range hist {
 			for _, id := range batch {
 				want[id] = true
+			}
+			if len(batch) == 0 {
+				// a failing list call (AgentDedup!EnvListFail): what the agent has seen must survive it
+				fp.Push([]string{"!fail"})
+				continue
 			}
 			fp.Push(batch)
 			if d := rng.Intn(6); d > 0 {
@@ -237,6 +243,9 @@ func dedupDriver(a *Args) {
 				}
 				hist[i] = append(hist[i], id)
 				distinct[x] = true
+			}
+			if len(batch) == 0 {
+				shape += "FAIL"
 			}
 			shape += strings.Join(batch, "") + "|"
 		}
